@@ -289,6 +289,89 @@ example :
 
 open RoleTree.Conc
 
+
+/-! ## repeated reports and non-uniform presets (seed C11-7)
+
+A role made by `NewAggregatorRole` starts with the zero values (UNDEFINED: nothing folded yet), a loaded role
+and every copy an iterator generates with INACTIVE. The code hands EVERY status report of a task/call role
+upward — also one that does not change the role — and that is what makes the aggregators above it the fold of
+their children whatever they held before. -/
+
+/-- Tie: no update function of a task/call role has a way out before its parent call (no `return`, `break`,
+    `continue`, `goto`, `panic` at all), the aggregator's only one is the nil-receiver guard, and the aggregator
+    hands on what it holds after its merge whenever it has a parent — no "unchanged, so skip" anywhere.
+    (The guards of the leaves' parent calls are pinned by `C11_fold_filter_is_code`.) -/
+theorem C11_reports_always_forwarded_is_code :
+    Gen.updateExits = [("*aggregatorRole.updateState: r == nil", "return"),
+                       ("*aggregatorRole.updateStatus: r == nil", "return")] ∧
+    Gen.aggForwards = [("*aggregatorRole.updateState: r.parent != nil", "r.parent.updateState(r.state.get())"),
+                       ("*aggregatorRole.updateStatus: r.parent != nil", "r.parent.updateStatus(r.status.get())")] := by
+  decide
+
+/-- One status update — possibly REPEATING the leaf's value — on ANY tree in which every aggregator either has
+    folded nothing yet or is the fold of its children: afterwards every aggregator above the leaf is the fold of
+    what its children report, and the leaf holds the value. -/
+theorem C11_status_update_refolds_path (f : TForest) (p : List Nat) (s : TStatus)
+    (h : zeroOrFoldT f = true) (hr : reachesLeafT f p = true) :
+    pathStatusOkT (updStatusT f p s).1 p = true ∧ (valAtT (updStatusT f p s).1 p).map (·.2) = some s :=
+  ⟨updStatusT_refolds_path f p s (zeroOrFold_pathPre f p h) (updStatusT_reaches f p s hr).1,
+   (updStatusT_reaches f p s hr).2⟩
+
+/-- "Nothing folded yet or the fold" is kept by every update sequence (state and status, repeats included). -/
+theorem C11_zero_or_fold_kept (f : TForest) (us : List Update) (h : zeroOrFoldT f = true) :
+    zeroOrFoldT (runT f us) = true := by
+  induction us generalizing f with
+  | nil => exact h
+  | cons u us ih =>
+    apply ih
+    cases u with
+    | state p s => exact updStateT_zeroOrFold f (0 :: p) s h
+    | status p s => exact updStatusT_zeroOrFold f (0 :: p) s h
+
+/-- The predicate the driver evaluates on trees with non-uniform presets holds of the model, for EVERY such
+    tree and EVERY update sequence: after each status update the path above the leaf is re-folded, after each
+    update the leaf holds the value. -/
+theorem C11_repeat_spec (f : TForest) (us : List Update) (h : zeroOrFoldT f = true) (hr : reachAllT f us = true) :
+    stepsOkT (traceT f us) us = true := by
+  induction us generalizing f with
+  | nil => simp [traceT, stepsOkT]
+  | cons u us ih =>
+    obtain ⟨t, ht⟩ := traceT_cons (applyUpdateT f u) us
+    show stepsOkT (f :: traceT (applyUpdateT f u) us) (u :: us) = true
+    rw [ht]; simp only [stepsOkT, Bool.and_eq_true]; rw [← ht]
+    cases u with
+    | state p s =>
+      simp only [reachAllT, Bool.and_eq_true] at hr
+      refine ⟨?_, ih _ (updStateT_zeroOrFold f (0 :: p) s h) hr.2⟩
+      simp only [stepOkT, applyUpdateT]
+      exact decide_eq_true (updStateT_reaches f (0 :: p) s hr.1)
+    | status p s =>
+      simp only [reachAllT, Bool.and_eq_true] at hr
+      refine ⟨?_, ih _ (updStatusT_zeroOrFold f (0 :: p) s h) hr.2⟩
+      simp only [stepOkT, applyUpdateT, Bool.and_eq_true]
+      have := C11_status_update_refolds_path f (0 :: p) s h hr.1
+      exact ⟨this.1, decide_eq_true this.2⟩
+
+/-- Refutation of the variant "a report that leaves the leaf unchanged is not handed upward"
+    (`updStatusSkipT`, NOT the code): a fresh aggregator over one task born INACTIVE, first report INACTIVE —
+    the root keeps UNDEFINED although its only child reports INACTIVE; the code (`updStatusT`) gives INACTIVE. -/
+theorem C11_skip_unchanged_report_refuted :
+    let f : TForest := .agg .UNKNOWN .UNDEFINED (.leaf false ⟨true, false⟩ .STANDBY .INACTIVE .nil) .nil
+    zeroOrFoldT f = true ∧ reachesLeafT f [0, 0] = true ∧
+    pathStatusOkT (updStatusSkipT f [0, 0] .INACTIVE).1 [0, 0] = false ∧
+    pathStatusOkT (updStatusT f [0, 0] .INACTIVE).1 [0, 0] = true ∧
+    dumpT (updStatusT f [0, 0] .INACTIVE).1 = [(.UNKNOWN, .INACTIVE), (.STANDBY, .INACTIVE)] := by
+  decide
+
+/-- Non-vacuity: root and inner aggregator fresh, two tasks born INACTIVE, each reports INACTIVE, then ACTIVE twice. -/
+example :
+    let t : TForest := .leaf false ⟨true, false⟩ .STANDBY .INACTIVE (.leaf false ⟨true, true⟩ .STANDBY .INACTIVE .nil)
+    let f : TForest := .agg .UNKNOWN .UNDEFINED (.agg .UNKNOWN .UNDEFINED t .nil) .nil
+    let us : List Update := [.status [0, 0] .INACTIVE, .status [0, 1] .INACTIVE, .status [0, 0] .ACTIVE,
+                             .status [0, 0] .ACTIVE, .status [0, 1] .ACTIVE]
+    zeroOrFoldT f = true ∧ reachAllT f us = true ∧ statusOkT f = false ∧ statusOkT (runT f us) = true := by
+  decide
+
 /-- go/ast facts, re-extracted on every run: `SafeState.merge` and `SafeStatus.merge` take the
     role's mutex in their first statement, release it by a `defer` in the second, touch the mutex
     nowhere else, and call the re-aggregation of the children inside that body — the whole merge
